@@ -153,48 +153,109 @@ def r_sort(ctx, model):
                       explanation="evec_sort starts working on inputs of inconsistent dimensions", key=f"sort.guard.{label}")
         except RaisedV as e:
             ctx.ok(f"dimension guard: {label}", w, e.exc_name)
-    # greedy loop (structural)
-    loops = [n for n in ast.walk(f) if isinstance(n, ast.For)]
-    loop = next((l for l in loops if isinstance(l.iter, ast.Call) and dotted_name(l.iter.func) == "range" and src(l.iter.args[0]) == "ndim"), None)
-    if loop is None:
-        raise AnalysisError("evec_sort: the loop over range(ndim) was not found")
-    ndim_def = next((s.value for s in body_wo_doc(f) if isinstance(s, ast.Assign) and src(s.targets[0]) == "ndim"), None)
-    params = [a.arg for a in f.args.args]
-    ctx.check(ndim_def is not None and src(ndim_def) == f"len({params[0]})", "ndim iterations, ndim = number of items", model.where(SORT, loop), expected=f"len({params[0]})",
-              found=src(ndim_def) if ndim_def is not None else "?", explanation="the greedy assignment does not run once per item", key="sort.iterations")
-    idx_name, mname = None, None
-    for st in loop.body:
-        if isinstance(st, ast.Assign) and isinstance(st.value, ast.Call) and (dotted_name(st.value.func) or "").endswith("unravel_index"):
-            idx_name = src(st.targets[0])
-            inner = st.value.args[0]
-            if isinstance(inner, ast.Call) and (dotted_name(inner.func) or "").endswith("argmax"):
-                a0 = inner.args[0]
-                mname = src(a0.args[0]) if isinstance(a0, ast.Call) and (dotted_name(a0.func) or "").split(".")[-1] in ("abs", "absolute") else None
-                shape_ok = len(st.value.args) > 1 and src(st.value.args[1]) == f"{mname}.shape"
-    if idx_name is None or mname is None:
-        raise AnalysisError("evec_sort: idx = unravel_index(argmax(abs(m)), m.shape) not recognised")
-    zero_rows, zero_cols, place = [], [], []
-    for st in loop.body:
-        if isinstance(st, ast.Assign) and isinstance(st.targets[0], ast.Subscript):
-            t = st.targets[0]
-            if src(t.value) == mname and isinstance(t.slice, ast.Tuple) and len(t.slice.elts) == 2 and isinstance(st.value, ast.Constant) and st.value.value == 0:
-                a, b = t.slice.elts
-                if isinstance(b, ast.Slice) and b.lower is None and b.upper is None:
-                    zero_rows.append(src(a))
-                elif isinstance(a, ast.Slice) and a.lower is None and a.upper is None:
-                    zero_cols.append(src(b))
-            elif src(t.value) != mname:
-                place.append((src(t.value), src(t.slice), src(st.value)))
-    ok_elim = zero_rows == [f"{idx_name}[0]"] and zero_cols == [f"{idx_name}[1]"]
-    ctx.check(ok_elim and shape_ok, "the chosen row AND column are eliminated", model.where(SORT, loop), expected=f"{mname}[{idx_name}[0], :] = 0; {mname}[:, {idx_name}[1]] = 0",
-              found=f"rows zeroed {zero_rows}, columns zeroed {zero_cols}", explanation="after a match only the row or only the column of the overlap matrix is "
-                                                                                     "eliminated: a base vector or an item can be assigned twice (result is not a permutation)", key="sort.eliminate")
-    ok_place = len(place) == 1 and place[0][1] == f"{idx_name}[0]" and place[0][2] == f"{params[0]}[{idx_name}[1]]"
-    ctx.check(ok_place, "sorted[row of base vector] = items[column of matching target vector]", model.where(SORT, loop), expected=f"sorted_arr[{idx_name}[0]] = {params[0]}[{idx_name}[1]]",
-              found=str(place), explanation="items are placed at the position of the target vector instead of the matching base vector (inverse permutation)", key="sort.place")
-    rets = [s for s in ast.walk(f) if isinstance(s, ast.Return)]
-    ctx.check(len(rets) == 1 and place and src(rets[0].value) == place[0][0], "the filled list is returned", w, expected=place[0][0] if place else "sorted list",
-              found=src(rets[0].value) if rets else "none", explanation="evec_sort does not return the sorted items", key="sort.return")
+    # the greedy assignment, folded on reference bases: an orthonormal 3-vector basis and every one of its 6 permutations,
+    # each with arbitrary phases (1, -1, i) and a small perturbation - the overlap magnitudes are constants, so arg-max,
+    # elimination and placement are decided by constant folding whichever way the loop is written
+    import itertools
+    I3 = [[sp.Integer(1 if i == j else 0) for j in range(3)] for i in range(3)]
+    # an orthonormal real basis with rational entries (a rotation), so that no vector is axis-aligned
+    R3 = [[sp.Rational(2, 3), sp.Rational(-1, 3), sp.Rational(2, 3)], [sp.Rational(2, 3), sp.Rational(2, 3), sp.Rational(-1, 3)], [sp.Rational(-1, 3), sp.Rational(2, 3), sp.Rational(2, 3)]]
+    phases = [sp.Integer(1), sp.Integer(-1), sp.I]
+    eps = sp.Rational(1, 50)
+    bad, n_sc = [], 0
+
+    def num_intr():
+        def arr(ev, a, k):
+            v = a[0]
+            if isinstance(v, ArrV):
+                return v
+            if isinstance(v, Tup) and all(isinstance(r, Tup) for r in v.items):
+                m_ = ArrV(0, (len(v.items), len(v.items[0].items)))
+                for i_, r in enumerate(v.items):
+                    for j_, x in enumerate(r.items):
+                        m_.cells[(i_, j_)] = as_sym(x)
+                return m_
+            raise AnalysisError("numpy.array of an unexpected value in evec_sort")
+
+        def conj_(ev, a, k):
+            m_ = a[0]
+            out = ArrV(0, m_.shape)
+            for kk in itertools.product(*[range(d) for d in m_.shape]):
+                out.cells[kk] = sp.conjugate(as_sym(m_.get(kk)))
+            return out
+
+        def abs_(ev, a, k):
+            m_ = a[0]
+            out = ArrV(0, m_.shape)
+            for kk in itertools.product(*[range(d) for d in m_.shape]):
+                out.cells[kk] = sp.Abs(as_sym(m_.get(kk)))
+            return out
+
+        def argmax_(ev, a, k):
+            m_ = a[0]
+            if k.get("axis") is not None:
+                raise AnalysisError("argmax along an axis in evec_sort")
+            keys = list(itertools.product(*[range(d) for d in m_.shape]))
+            vals = [sp.sympify(m_.get(kk)) for kk in keys]
+            if not all(v.is_real and v.is_number for v in vals):
+                raise AnalysisError("argmax of a matrix that is not real (magnitudes expected)")
+            best = max(range(len(keys)), key=lambda i_: (vals[i_], -i_))
+            return sp.Integer(best)
+
+        def unravel(ev, a, k):
+            flat, shape = int(a[0]), [int(x) for x in ev.iterate(a[1])]
+            out = []
+            for d in reversed(shape):
+                out.append(sp.Integer(flat % d))
+                flat //= d
+            return Tup(list(reversed(out)), "tuple")
+        return {"numpy.array": arr, "numpy.asarray": arr, "numpy.conj": conj_, "numpy.conjugate": conj_, "numpy.abs": abs_, "numpy.absolute": abs_,
+                "builtins.abs": abs_, "numpy.argmax": argmax_, "ndarray.argmax": argmax_, "arr.argmax": argmax_, "numpy.unravel_index": unravel}
+
+    for basis_name, basis in (("axis-aligned", I3), ("rotated", R3)):
+        for perm in itertools.permutations(range(3)):
+            n_sc += 1
+            # target vector j is base vector perm[j] times a phase, slightly perturbed towards the next base vector
+            target = [[phases[j] * (basis[perm[j]][k_] + eps * basis[(perm[j] + 1) % 3][k_]) for k_ in range(3)] for j in range(3)]
+            items = Tup([f"item{j}" for j in range(3)], "list")
+            ev3 = Ev(model, {}, num_intr(), ctx=ctx)
+            try:
+                res = ev3.call_def(f, model.mods["cij.misc.evec_sort"], SORT, [items, mk(target), mk(basis)], {})
+            except RaisedV as e:
+                bad.append(f"{basis_name} basis, permutation {perm}: raises {e.exc_name}")
+                continue
+            got = list(res.items) if isinstance(res, Tup) else res
+            want = [None] * 3
+            for j in range(3):
+                want[perm[j]] = f"item{j}"
+            if got != want:
+                bad.append(f"{basis_name} basis, permutation {perm}: {got} (want {want})")
+    ctx.check(not bad, f"every item lands at the position of its matching base vector ({n_sc} reference bases: 6 permutations x 2 orthonormal bases, phases 1/-1/i, 2 % perturbation)", w,
+              expected="sorted[perm[j]] = items[j]; a permutation of the items", found="; ".join(bad[:3]) or f"{n_sc} scenarios as required",
+              explanation="the greedy assignment does not recover the permutation: items are placed by the target's position (inverse permutation), only the row or only "
+                          "the column of a match is eliminated (an item or a position used twice), the magnitude of the overlap is not used, or it does not run once per item",
+              key="sort.reference")
+    # a degenerate (non-orthogonal) target set: the result is still a permutation of the items
+    Q = sp.Rational
+    degs = [("targets nearly parallel", [[Q(1), Q(0), Q(0)], [Q(9, 10), Q(1, 10), Q(0)], [Q(8, 10), Q(0), Q(1, 10)]], I3),
+            ("one target shared by two base vectors", [[Q(7, 10), Q(7, 10), Q(0)], [Q(1, 10), Q(0), Q(99, 100)], [Q(0), Q(2, 10), Q(1, 10)]], I3),
+            ("one base vector shared by two targets", I3, [[Q(7, 10), Q(7, 10), Q(0)], [Q(1, 10), Q(0), Q(99, 100)], [Q(0), Q(2, 10), Q(1, 10)]])]
+    okp, got = True, []
+    for dname, tg, bs in degs:
+        ev4 = Ev(model, {}, num_intr(), ctx=ctx)
+        try:
+            res = ev4.call_def(f, model.mods["cij.misc.evec_sort"], SORT, [Tup(["a", "b", "c"], "list"), mk(tg), mk(bs)], {})
+            g_ = sorted(str(x) for x in res.items) if isinstance(res, Tup) else None
+            if g_ != ["a", "b", "c"]:
+                okp = False
+                got.append(f"{dname}: {list(res.items) if isinstance(res, Tup) else res}")
+        except RaisedV as e:
+            okp = False
+            got.append(f"{dname}: raises {e.exc_name}")
+    got = "; ".join(got) or "a permutation in 3 degenerate scenarios"
+    ctx.check(okp, "competing overlaps (3 degenerate scenarios): the result is still a permutation of the items", w, expected="each item exactly once", found=str(got),
+              explanation="when several target vectors overlap most with the same base vector an item is dropped or duplicated (a match must eliminate its row and its column)",
+              key="sort.permutation")
 
 
 SAMPLE = """     diagonalizing the dynamical matrix ...
